@@ -155,6 +155,7 @@ impl LuaMemberIndex {
         id: LuaMemberId,
     ) -> Option<()> {
         self.member_current_owner.insert(id, owner.clone());
+        self.add_in_file_object(file_id, MemberOrOwner::Member(id));
         self.add_in_file_object(file_id, MemberOrOwner::Owner(owner));
 
         Some(())
